@@ -195,7 +195,7 @@ func fmtLab(m map[string]string) string {
 // universe of paths around the byte order of '/'
 var c06Universe = []string{
 	"d", "d-old", "d.c", "d d", "d0", "ad", "da", "d/x", "d/y z", "d/sub/f", "ad/x", "a/d/x", "d-old/x", "d.c/y",
-	"a(b", "a(b/x", "a+b/x", "a.b/x", "aXb/x", "[x]/y", "test/a", "test.c", "test-data", "test0", "lib/m.go", "lib.go", "lib-old", "x",
+	"a(b", "a(b/x", "a+b/x", "a.b/x", "aXb/x", "[x]/y", "test/a", "test.c", "test-data", "test0", "lib/m.go", "lib.go", "lib-old", "x", "d/X", "D", "D/x", "Lib.go",
 }
 
 func conflictFree(ps []string) bool {
